@@ -86,7 +86,7 @@ func (f *MakeArray) Call(s *slip.Scope, args slip.List, depth int) slip.Object {
 	elementType := slip.TrueSymbol
 	switch ta := args[0].(type) {
 	case slip.Fixnum:
-		dims = []int{int(ta)}
+		dims = []int{slip.CheckDimension(s, depth, "dimensions", ta)}
 	case slip.List:
 		for _, v := range ta {
 			if num, ok := v.(slip.Fixnum); ok && 0 <= num {
